@@ -120,6 +120,7 @@ def check (c):
         if nfref.min_distance (m, x) >= 1.0:
             pts.append (('mid', x))
     classes = set ()
+    refs = []
     for kind, x in pts:
         kw = {} if pwr is None else dict (pwr = pwr)
         common.guarded (lambda: m.compute_near_field (list (x), [1.0, 1.0, 1.0], [1, 1, 1], **kw), 'compute_near_field')
@@ -130,6 +131,7 @@ def check (c):
             ninc += 1
             continue
         E, H = E2 * scale, H2 * scale
+        refs.append ((kind, x, E, H))
         classes.add (kind)
         dE = np.linalg.norm (Ec - E) / np.linalg.norm (E)
         dH = np.linalg.norm (Hc - H) / np.linalg.norm (H)
@@ -188,6 +190,20 @@ def check (c):
             judge ('far-shell.radial', abs (Ec @ rh) / tr, 0.02, 'radial E component is %.3g of the main-beam field at %.0f lambda' % (abs (Ec @ rh) / tr, rr), key = 'far-shell-radial')
             trh = np.sqrt (abs (Hc @ tv) ** 2 + abs (Hc @ pv) ** 2) * 10 ** ((gmax - g [2]) / 20)
             judge ('far-shell.radial', abs (Hc @ rh) / trh, 0.02, 'radial H component is %.3g of the main-beam field' % (abs (Hc @ rh) / trh), key = 'far-shell-radial')
+    # ---- the power level of a request holds for that request only: ask for another level, then repeat
+    # the first request (with its own level, or none) and compare with the same reference
+    if refs:
+        kind, x, E, H = refs [0]
+        other = 7.5 * (pwr if pwr is not None else float (m.power))
+        common.guarded (lambda: m.compute_near_field (list (x), [1.0, 1.0, 1.0], [1, 1, 1], pwr = other), 'compute_near_field')
+        Ec = np.asarray (m.e_field [0])
+        s2 = np.sqrt (other / (pwr if pwr is not None else float (m.power)))
+        judge ('E.level', np.linalg.norm (Ec - E * s2) / np.linalg.norm (E * s2), 0.01, 'E at %s for %.3g W deviates from the field of the solved currents scaled to that level' % (np.round (x, 4), other), key = 'near-E')
+        kw = {} if pwr is None else dict (pwr = pwr)
+        common.guarded (lambda: m.compute_near_field (list (x), [1.0, 1.0, 1.0], [1, 1, 1], **kw), 'compute_near_field')
+        Ec, Hc = np.asarray (m.e_field [0]), np.asarray (m.h_field [0])
+        judge ('E.repeat', np.linalg.norm (Ec - E) / np.linalg.norm (E), 0.01, 'E at %s, asked again after a request with another power level, deviates from the field of the solved currents' % (np.round (x, 4),), key = 'near-E')
+        judge ('H.repeat', np.linalg.norm (Hc - H) / np.linalg.norm (H), 0.01, 'H at %s, asked again after a request with another power level, deviates from the field of the solved currents' % (np.round (x, 4),), key = 'near-H')
     if not any (k.startswith ('E.') for k in mon):
         return dict (status = 'inconclusive', reason = 'no admissible observation point / quadrature self-check failed')
     sig = gen.signature (spec, m, extra = ['+'.join (sorted (classes)), 'pwr%d' % (pwr is not None)])
